@@ -43,6 +43,15 @@ CLAIMED.update({
             MODEL_NOTE, "DESIGN.md 4/C20"),
 })
 
+CLAIMED.update({
+    "C04": ("property-based fuzzing of the router: rapid-generated hostile message histories over all transports and serializers plus structured rawsocket/websocket byte streams, with a liveness probe as oracle; part of the shards under the race detector",
+            "Exploration: every case runs in a disposable worker process inside a synctest bubble; a panic, Go fatal error or race report is a crash verdict attributed to the case and shrunk; afterwards (and 24 virtual hours later) a fresh probe session must be served with no virtual delay. Sampling; native go-fuzz campaigns extend it in the thorough tier.",
+            "Oracle is robustness only (alive + other sessions served). Schedules are sampled (par batches, GOMAXPROCS varied), not enumerated. Go runtime, synctest, race detector, rapid trusted.", "DESIGN.md 4/C04"),
+    "C12": ("model-based + metamorphic property testing: exact per-recipient EVENT details from the recipient's own features/subscription, identity-key necessity for INVOCATIONs, snapshot-then-mutate immutability probe on in-process recipients, transport.auth absence in session meta output",
+            "Exploration: details are compared with what the recipient alone justifies (so dependence on co-recipients is a mismatch), every delivery is snapshotted and re-compared after later steps and after mutating other in-process copies; one shard under the race detector. Sampling.",
+            MODEL_NOTE + " Immutability probed with top-level mutations only.", "DESIGN.md 4/C12"),
+})
+
 NOT_YET = {}
 
 def main():
